@@ -114,5 +114,66 @@ struct FaultPause {
   ~FaultPause() { g_fault.armed = was; }
 };
 
+// Debug aid (VERIF_THROW_BT=1): print the call stack of every C++ throw to stderr.  Interposes __cxa_throw of
+// libstdc++; inert unless the variable is set; uses malloc directly, so it never consumes fault positions.
+#include <dlfcn.h>
+#include <execinfo.h>
+extern "C" void __cxa_throw(void* ex, void* tinfo, void (*dest)(void*)) {
+  typedef void (*real_t)(void*, void*, void (*)(void*));
+  static real_t real = (real_t) dlsym(RTLD_NEXT, "__cxa_throw");
+  static int on = -1;
+  if (on < 0) on = getenv("VERIF_THROW_BT") ? 1 : 0;
+  if (on) { bool was = g_fault.armed; g_fault.armed = false; void* bt[24]; int n = backtrace(bt, 24); dprintf(2, "THROW\n"); backtrace_symbols_fd(bt, n, 2); g_fault.armed = was; }
+  real(ex, tinfo, dest);
+  __builtin_unreachable();
+}
+
 static inline int lsan_leaks() { return lsan_available() ? __lsan_do_recoverable_leak_check() : 0; }
+// Leak check whose report is parsed for the allocation site: the first stack frame that is not an allocator
+// (operator new, malloc, the GMP shim, std:: containers).  Returns the number reported by LSan (0: no leak).
+#include <fcntl.h>
+#include <unistd.h>
+#include <string>
+#include <cstring>
+static inline int lsan_leaks_site(std::string& site) {
+  site = "unknown";
+  if (!lsan_available()) return 0;
+  char path[128]; snprintf(path, sizeof path, "/tmp/verif-lsan-%d.txt", (int) getpid());
+  int fd = open(path, O_WRONLY | O_CREAT | O_TRUNC, 0600);
+  int saved = dup(2);
+  if (fd >= 0) { dup2(fd, 2); close(fd); }
+  int leaks = lsan_leaks();
+  if (saved >= 0) { dup2(saved, 2); close(saved); }
+  if (leaks) {
+    FILE* f = fopen(path, "r");
+    if (f) {
+      char line[1024]; bool in_block = false;
+      while (fgets(line, sizeof line, f)) {
+        if (strstr(line, "leak of")) { in_block = true; continue; }
+        if (!in_block) continue;
+        const char* hash = strchr(line, '#');
+        if (!hash || hash - line > 8) continue;       // only stack-frame lines
+        const char* in = strstr(line, " in ");
+        if (!in) continue;
+        std::string fn(in + 4);
+        while (!fn.empty() && (fn.back() == '\n' || fn.back() == ' ')) fn.pop_back();
+        // drop the trailing " file:line" or " (module+0x..)"
+        size_t sp = fn.rfind(' ');
+        if (sp != std::string::npos && (fn.find('/', sp) != std::string::npos || fn.find(':', sp) != std::string::npos || fn[sp + 1] == '(')) fn.resize(sp);
+        // drop the argument list, keep the qualified name
+        size_t par = fn.find('(');
+        if (par != std::string::npos && par > 0) fn.resize(par);
+        if (fn.find("operator new") != std::string::npos || fn.find("malloc") != std::string::npos || fn.find("sim_gmp") != std::string::npos
+            || fn.find("interceptor") != std::string::npos || fn.find("realloc") != std::string::npos || fn.find("allocator") != std::string::npos
+            || fn.find("__gnu_cxx") != std::string::npos || fn.find("std::") == 0) continue;
+        for (char& ch : fn) if (ch == ' ' || ch == '|') ch = '_';
+        if (fn.size() > 80) fn.resize(80);
+        site = fn; break;
+      }
+      fclose(f);
+    }
+  }
+  if (!getenv("VERIF_KEEP_LSAN")) unlink(path);
+  return leaks;
+}
 #endif
